@@ -83,7 +83,7 @@ def random_program(rng, *, max_cleanups=4, kinds=RAISE_KINDS, p_raise=0.35, feat
         if "nested_cleanup" in feats and depth < 2 and n_cleanups[0] < max_cleanups + 2 \
                 and rng.random() < 0.3:
             n_cleanups[0] += 1
-            body.append(["cleanup", "c%d" % n_cleanups[0], cleanup_body(depth + 1)])
+            body.append(["cleanup", "c%d" % n_cleanups[0], cleanup_body(depth + 1)] + (["kw"] if rng.random() < 0.2 else []))
         if "patch" in feats and rng.random() < 0.2:
             body.append(patch_action(rng, p))
         if "expect" in feats and rng.random() < 0.15:
@@ -101,7 +101,7 @@ def random_program(rng, *, max_cleanups=4, kinds=RAISE_KINDS, p_raise=0.35, feat
             r = rng.random()
             if r < 0.45 and n_cleanups[0] < max_cleanups:
                 n_cleanups[0] += 1
-                acts.append(["cleanup", "c%d" % n_cleanups[0], cleanup_body(0)])
+                acts.append(["cleanup", "c%d" % n_cleanups[0], cleanup_body(0)] + (["kw"] if rng.random() < 0.2 else []))
             elif r < 0.55 and "expect" in feats:
                 acts.append(expect_action(rng, tok, feats))
             elif r < 0.62 and "force" in feats:
